@@ -502,8 +502,8 @@ func flagTermOK(v string) bool {
 
 func init() {
 	register(&Property{
-		ID:    "C06",
-		Level: "other",
+		ID:          "C06",
+		Level:       "other",
 		Explanation: "Decides the structural necessary conditions of reorg detection and rewind on every path: C06-track — the driver hands a block to the store only after the reorg detector accepted it for tracking (or it is finalized), tracking (id, b.Num, b.Hash) of the delivered block; C06-notify — the only send on Subscription.ReorgedBlock is notifySubscriber's, called from one site, only on the edge where the tracked hash differs from the current header's hash for the same number, with the current element of an ascending getSorted() range, leaving the loop after the first notification, and on the equal edge only finalized entries are dropped; C06-rewind/C06-value — handleReorg cancels the download before Reorg, passes the notified value unchanged, retries until Reorg returns nil, only then acknowledges, never returns without acknowledging, and Sync re-reads the last processed block and restarts the download afterwards (C05-restart). Convergence for all fork shapes, restart points and detector/driver interleavings is not decided. Added after round 7: C06-finality (finalized block sampled before the fetch; report helpers get min(tip, sample); flag only for numbers <= it; no arithmetic on the finalized bound when tracking is dropped), C06-audit (the audit row a notification waits for is keyed by detection time).",
 		Rules: []Rule{
 			{ID: "C06-finality", Floor: 7, Run: c06Finality, Text: "[DOM]+[PROV] finalized block sampled before the fetch; both report helpers get min(tip, that sample); flag only for numbers <= it"},
